@@ -11,16 +11,38 @@ NPROC = min(16, os.cpu_count() or 4)
 _FN = None
 
 
+ITEM_LIMIT = float(os.environ.get("VERIF_ITEM_LIMIT", "60"))
+
+
+class ItemTimeout(BaseException):
+    pass
+
+
+def _alarm(signum, frame):
+    raise ItemTimeout()
+
+
 def _work(args):
+    import signal
+
     idx, chunk = args
     common.import_repo()
     texts = []
     metas = []
+    signal.signal(signal.SIGALRM, _alarm)
     for item in chunk:
+        # an item (one graph / program / operation, a few milliseconds of library calls) that does not come
+        # back is reported instead of hanging the check and eating memory
+        signal.setitimer(signal.ITIMER_REAL, ITEM_LIMIT)
         try:
             t, m = _FN(item)
+        except ItemTimeout:
+            t, m = None, {"harness_error": "the library calls for this item neither returned nor raised within %d s"
+                                            % ITEM_LIMIT, "item": repr(item)[:300]}
         except Exception as e:  # harness failure: reported, never hidden
             t, m = None, {"harness_error": repr(e)[:300], "item": repr(item)[:300]}
+        finally:
+            signal.setitimer(signal.ITIMER_REAL, 0)
         texts.append(t)
         metas.append(m)
     body = "".join(t for t in texts if t)
